@@ -1,6 +1,8 @@
 import J5V.Print.GrammarProofs
 import J5V.Print.ReparseOpts
 import J5V.Print.LayoutProofs
+import J5V.Print.LayoutComments
+import J5V.Print.ReparseLead
 /-!
 # Reading back what was printed (core only)
 
@@ -127,21 +129,21 @@ def kwOk (first : String) : Prop :=
 
 /-- a field without options, comments and custom JSON name, of a named or scalar type -/
 def SimpleField (f : FieldD) : Prop :=
-  f.kind = .field ∧ f.loc.noComments ∧ f.opts = [] ∧ (f.label = "" ∨ f.label = "repeated " ∨ f.label = "optional ") ∧
+  f.kind = .field ∧ f.loc.leadOnly ∧ f.opts = [] ∧ (f.label = "" ∨ f.label = "repeated " ∨ f.label = "optional ") ∧
   IsIdent f.name ∧ f.json = some (String.ofList (defaultJSONName f.name.toList)) ∧
   ∃ (abs : Bool) (first : String) (rest : List String), IsIdent first ∧ (∀ r ∈ rest, IsIdent r) ∧
     f.type = tyStr abs first rest ∧ (abs = false → first ≠ "map") ∧ (f.label = "" → abs = false → kwOk first)
 
 /-- a map field without options, comments and custom JSON name: a scalar key type, a named or scalar value type -/
 def MapField (f : FieldD) : Prop :=
-  f.kind = .field ∧ f.loc.noComments ∧ f.opts = [] ∧ f.label = "" ∧
+  f.kind = .field ∧ f.loc.leadOnly ∧ f.opts = [] ∧ f.label = "" ∧
   IsIdent f.name ∧ f.json = some (String.ofList (defaultJSONName f.name.toList)) ∧
   ∃ (k : String) (abs : Bool) (first : String) (rest : List String), IsIdent k ∧ IsIdent first ∧ (∀ r ∈ rest, IsIdent r) ∧
     f.type = mapTy k abs first rest
 
 /-- an enum value without options and comments -/
 def SimpleValue (f : FieldD) : Prop :=
-  f.kind = .value ∧ f.loc.noComments ∧ f.opts = [] ∧ f.label = "" ∧ f.type = "" ∧ IsIdent f.name ∧ f.name ≠ "option" ∧
+  f.kind = .value ∧ f.loc.leadOnly ∧ f.opts = [] ∧ f.label = "" ∧ f.type = "" ∧ IsIdent f.name ∧ f.name ≠ "option" ∧
   f.json = none
 
 /-! ## fields with bracket options (`[a = 1, json_name = "x"]`): read back by evaluation
@@ -252,7 +254,7 @@ def rdField (f : FieldD) (s : Nat) : FieldD := shF s (rdField0 f)
 what the scanner and the parser make of its text is part of the hypothesis (decidable: `Cover.optFieldB`) -/
 structure OptField (f : FieldD) : Prop where
   kind : f.kind = .field
-  loc : f.loc.noComments
+  loc : f.loc.leadOnly
   unl : ∀ o ∈ f.opts, o.hasLoc = false
   lab : f.label = "" ∨ f.label = "repeated " ∨ f.label = "optional "
   name : IsIdent f.name
@@ -359,32 +361,53 @@ structure RpcOpts (os : List SOpt) : Prop where
   ok : optsOk os (mkOpts 0 (rpcRaws0 os))
   pos : ∀ o ∈ mkOpts 0 (rpcRaws0 os), o.hasLoc = true → 0 < o.startLine
 
+/-- a leading comment as the printer splits it into `//` lines and the reader joins them again: the text ends with
+a line break (every comment protocompile attributes does), no line holds a line break (decidable: `Cover.commentOkB`) -/
+def CommentOk (c : String) : Prop :=
+  c = "" ∨ (commentBody c ≠ [] ∧ (∀ x ∈ commentBody c, NoNL x.toList) ∧
+    String.join ((commentBody c).map (· ++ "\n")) = c)
+
 mutual
-/-- messages (nested), enums, oneofs, fields, enum values; no options, no comments -/
+/-- messages (nested), enums, oneofs, fields, enum values; statement / bracket options by certificate; every element may
+carry a leading comment (`CommentOk`, asked by the list predicates), no detached / trailing comments -/
 def SimpleItem : Item → Prop
   | .field f => SimpleField f ∨ MapField f ∨ OptField f
   | .rpc _ _ _ _ _ _ => False
   | .block kw t l _ name os ks =>
-    l.noComments ∧ BlockOpts os ∧ IsIdent name ∧
+    l.leadOnly ∧ BlockOpts os ∧ IsIdent name ∧
     ((kw = "message" ∧ t = 1 ∧ SimpleKids ks) ∨ (kw = "enum" ∧ t = 2 ∧ SimpleValues ks) ∨
       (kw = "oneof" ∧ t = 0 ∧ ks ≠ [] ∧ SimpleMembers ks ∧ os = []))
 def SimpleKids : List Item → Prop
   | [] => True
-  | e :: r => SimpleItem e ∧ SimpleKids r
+  | e :: r => SimpleItem e ∧ CommentOk e.loc.leading ∧ SimpleKids r
 /-- the members of a `oneof`: fields without label -/
 def SimpleMembers : List Item → Prop
   | [] => True
-  | .field f :: r => ((SimpleField f ∨ OptField f) ∧ f.label = "") ∧ SimpleMembers r
+  | .field f :: r => ((SimpleField f ∨ OptField f) ∧ f.label = "") ∧ CommentOk f.loc.leading ∧ SimpleMembers r
   | _ :: _ => False
 def SimpleValues : List Item → Prop
   | [] => True
-  | .field f :: r => SimpleValue f ∧ SimpleValues r
+  | .field f :: r => SimpleValue f ∧ CommentOk f.loc.leading ∧ SimpleValues r
   | _ :: _ => False
 end
 
 /-! ## the reading: the same tree with the lines of the printed text -/
 
 def lineLoc (s e : Nat) : Loc := ⟨s, e, [], "", ""⟩
+
+/-- the gap `printElements` asks for before an element without source location -/
+def gapBefore (first : Bool) (le0 lt : Nat) (e : Item) : Bool := gapCond first le0 e.loc.startLine e.typeOrder lt
+
+def startLine (g : Bool) (L : Nat) : Nat := if g then L + 1 else L
+
+/-- the line an element starts on when the printer is on line `L` with gap flag `g`: without a leading comment the
+next line (after the blank one, if a gap is pending or asked for); with a leading comment `c` of `k` lines: a blank
+line, the `k` comment lines, then the element -/
+def kidStart (c : String) (gb : Bool) (L : Nat) (g : Bool) : Nat :=
+  if c = "" then startLine (g || gb) L else L + 1 + (commentBody c).length
+
+def kidS (e : Item) (first : Bool) (le0 lt L : Nat) (g : Bool) : Nat :=
+  kidStart e.loc.leading (gapBefore first le0 lt e) L g
 
 mutual
 /-- the element that starts on line `s`, and the line after it -/
@@ -404,12 +427,55 @@ def rdItem : Item → Nat → Item × Nat
 def rdKids : List Item → Bool → Nat → Nat → Nat → Bool → List Item × Nat
   | [], _, _, _, L, _ => ([], L)
   | e :: r, first, le0, lt, L, g =>
-    let s := if g || gapCond first le0 e.loc.startLine e.typeOrder lt then L + 1 else L
-    ((rdItem e s).1 :: (rdKids r false e.loc.endLine e.typeOrder (rdItem e s).2 e.gapEnder).1,
+    let s := kidStart e.loc.leading (gapCond first le0 e.loc.startLine e.typeOrder lt) L g
+    ((rdItem e s).1.withLead e.loc.leading :: (rdKids r false e.loc.endLine e.typeOrder (rdItem e s).2 e.gapEnder).1,
       (rdKids r false e.loc.endLine e.typeOrder (rdItem e s).2 e.gapEnder).2)
 end
 
+theorem rdKids_cons (e : Item) (r : List Item) (first : Bool) (le0 lt L : Nat) (g : Bool) :
+    rdKids (e :: r) first le0 lt L g =
+      ((rdItem e (kidS e first le0 lt L g)).1.withLead e.loc.leading ::
+          (rdKids r false e.loc.endLine e.typeOrder (rdItem e (kidS e first le0 lt L g)).2 e.gapEnder).1,
+        (rdKids r false e.loc.endLine e.typeOrder (rdItem e (kidS e first le0 lt L g)).2 e.gapEnder).2) := by
+  rw [rdKids]
+  rfl
+
 /-! ## what the printer writes for these files -/
+
+/-- an element without its leading comments (`itemCmds` = `leadingCmds` ++ this) -/
+def bodyCmds (n : Nat) : Item → List Cmd
+  | .field f =>
+    (fieldStyle n f.head (Scalar.formatInt f.number) f.popts (inlineComment f.loc)).map Cmd.line ++ trailingCmds n f.loc
+  | .rpc l _ name inT outT opts =>
+    [Cmd.line (ind n ("rpc " ++ name ++ "(" ++ inT ++ ") returns (" ++ outT ++ ")" ++
+      (if opts.isEmpty then " {}" else " {") ++ inlineComment l))] ++
+    trailingCmds n l ++
+    ((sortOpts opts).map (optionCmds (n + 1))).flatten ++
+    (if opts.isEmpty then [] else [Cmd.endl (ind n "}")]) ++ [Cmd.gap]
+  | .block kw _ l _ name opts kids =>
+    (if kids.isEmpty && opts.isEmpty && l.trailing = "" then
+      [Cmd.line (ind n (kw ++ " " ++ name ++ " {}"))]
+    else
+      [Cmd.line (ind n (kw ++ " " ++ name ++ " {" ++ inlineComment l))] ++
+      trailingCmds (n + 1) l ++
+      ((sortOpts opts).map (fun o => optionCmds (n + 1) o ++ [Cmd.gap])).flatten ++
+      elemsCmds (n + 1) kids true 0 0 ++
+      [Cmd.endl (ind n "}")]) ++ [Cmd.gap]
+
+theorem itemCmds_eq (n : Nat) : ∀ e : Item, itemCmds n e = leadingCmds n e.loc ++ bodyCmds n e
+  | .field f => by simp [itemCmds, bodyCmds, fieldCmds, Item.loc, List.append_assoc]
+  | .rpc _ _ _ _ _ _ => by simp [itemCmds, bodyCmds, Item.loc, List.append_assoc]
+  | .block _ _ _ _ _ _ _ => by simp [itemCmds, bodyCmds, Item.loc, List.append_assoc]
+
+/-- the `//` lines of a leading comment on a builder with indentation `n` -/
+def leadLines (n : Nat) (c : String) : List String := (commentBody c).map (fun x => ind n ("//" ++ x))
+
+theorem leadingCmds_lead (n : Nat) {l : Loc} (h : l.leadOnly) :
+    leadingCmds n l = if l.leading = "" then [] else Cmd.gap :: (leadLines n l.leading).map Cmd.line := by
+  unfold leadingCmds leadLines commentLines
+  rw [h.1]
+  simp only [List.map_nil, List.flatten_nil, List.nil_append, List.map_map]
+  rfl
 
 theorem popts_simple (f : FieldD) (ho : f.opts = [])
     (hj : f.json = none ∨ f.json = some (String.ofList (defaultJSONName f.name.toList))) : f.popts = [] := by
@@ -429,59 +495,53 @@ def fieldLine (n : Nat) (f : FieldD) : String :=
 /-- the line of an enum value -/
 def valueLine (n : Nat) (f : FieldD) : String := ind n (f.name ++ " = " ++ formatInt f.number ++ ";" ++ "")
 
-theorem fieldCmds_map (n : Nat) (f : FieldD) (h : MapField f) : fieldCmds n f = [Cmd.line (fieldLine n f)] := by
+theorem fieldCmds_map (n : Nat) (f : FieldD) (h : MapField f) : bodyCmds n (.field f) = [Cmd.line (fieldLine n f)] := by
   obtain ⟨hk, hl, ho, _, _, hj, _⟩ := h
-  unfold fieldCmds
-  rw [leadingCmds_noComments n hl, trailingCmds_noComments n hl,
-    inlineComment_noComments hl, popts_simple f ho (Or.inr hj)]
+  simp only [bodyCmds]
+  rw [trailingCmds_nt n hl.2, inlineComment_nt hl.2, popts_simple f ho (Or.inr hj)]
   simp [fieldStyle, fieldLine, FieldD.head, hk]
 
-theorem fieldCmds_simple (n : Nat) (f : FieldD) (h : SimpleField f) : fieldCmds n f = [Cmd.line (fieldLine n f)] := by
+theorem fieldCmds_simple (n : Nat) (f : FieldD) (h : SimpleField f) : bodyCmds n (.field f) = [Cmd.line (fieldLine n f)] := by
   obtain ⟨hk, hl, ho, _, _, hj, _⟩ := h
-  unfold fieldCmds
-  rw [leadingCmds_noComments n hl, trailingCmds_noComments n hl,
-    inlineComment_noComments hl, popts_simple f ho (Or.inr hj)]
+  simp only [bodyCmds]
+  rw [trailingCmds_nt n hl.2, inlineComment_nt hl.2, popts_simple f ho (Or.inr hj)]
   simp [fieldStyle, fieldLine, FieldD.head, hk]
 
-theorem fieldCmds_value (n : Nat) (f : FieldD) (h : SimpleValue f) : fieldCmds n f = [Cmd.line (valueLine n f)] := by
+theorem fieldCmds_value (n : Nat) (f : FieldD) (h : SimpleValue f) : bodyCmds n (.field f) = [Cmd.line (valueLine n f)] := by
   obtain ⟨hk, hl, ho, _, _, _, _, hj⟩ := h
-  unfold fieldCmds
-  rw [leadingCmds_noComments n hl, trailingCmds_noComments n hl,
-    inlineComment_noComments hl, popts_simple f ho (Or.inl hj)]
+  simp only [bodyCmds]
+  rw [trailingCmds_nt n hl.2, inlineComment_nt hl.2, popts_simple f ho (Or.inl hj)]
   simp [fieldStyle, valueLine, FieldD.head, hk]
 
 /-- a block without options and comments -/
 theorem blockCmds_simple (n : Nat) (kw : String) (t : Nat) (l : Loc) (i : Nat) (name : String) (kids : List Item)
-    (hl : l.noComments) :
-    itemCmds n (.block kw t l i name [] kids) =
+    (hl : l.leadOnly) :
+    bodyCmds n (.block kw t l i name [] kids) =
       (if kids.isEmpty then [Cmd.line (ind n (kw ++ " " ++ name ++ " {}"))]
        else [Cmd.line (ind n (kw ++ " " ++ name ++ " {" ++ ""))] ++ elemsCmds (n + 1) kids true 0 0 ++
          [Cmd.endl (ind n "}")]) ++ [Cmd.gap] := by
-  simp only [itemCmds]
-  rw [leadingCmds_noComments n hl, trailingCmds_noComments (n + 1) hl,
-    inlineComment_noComments hl, hl.2.2]
+  simp only [bodyCmds]
+  rw [trailingCmds_nt (n + 1) hl.2, inlineComment_nt hl.2, hl.2]
   simp [sortOpts, Order.isort]
 
 /-- a block without comments -/
 theorem blockCmds_opts (n : Nat) (kw : String) (t : Nat) (l : Loc) (i : Nat) (name : String) (os : List SOpt)
-    (kids : List Item) (hl : l.noComments) :
-    itemCmds n (.block kw t l i name os kids) =
+    (kids : List Item) (hl : l.leadOnly) :
+    bodyCmds n (.block kw t l i name os kids) =
       (if kids.isEmpty && os.isEmpty then [Cmd.line (ind n (kw ++ " " ++ name ++ " {}"))]
        else [Cmd.line (ind n (kw ++ " " ++ name ++ " {" ++ ""))] ++
          (((sortOpts os).map (fun o => optionCmds (n + 1) o ++ [Cmd.gap])).flatten ++
          (elemsCmds (n + 1) kids true 0 0 ++ [Cmd.endl (ind n "}")]))) ++ [Cmd.gap] := by
-  simp only [itemCmds]
-  rw [leadingCmds_noComments n hl, trailingCmds_noComments (n + 1) hl,
-    inlineComment_noComments hl, hl.2.2]
+  simp only [bodyCmds]
+  rw [trailingCmds_nt (n + 1) hl.2, inlineComment_nt hl.2, hl.2]
   simp
-
-/-- the gap `printElements` asks for before an element without source location -/
-def gapBefore (first : Bool) (le0 lt : Nat) (e : Item) : Bool := gapCond first le0 e.loc.startLine e.typeOrder lt
 
 theorem elemsCmds_cons_unloc (n : Nat) (e : Item) (r : List Item) (first : Bool) (le0 lt : Nat) :
     elemsCmds n (e :: r) first le0 lt =
-      (if gapBefore first le0 lt e then [Cmd.gap] else []) ++ itemCmds n e ++ elemsCmds n r false e.loc.endLine e.typeOrder := by
-  rw [elemsCmds]
+      (if gapBefore first le0 lt e then [Cmd.gap] else []) ++ leadingCmds n e.loc ++ bodyCmds n e ++
+        elemsCmds n r false e.loc.endLine e.typeOrder := by
+  rw [elemsCmds, itemCmds_eq]
+  simp only [List.append_assoc]
   rfl
 
 theorem exec_gapIf (c g : Bool) : exec (if c then [Cmd.gap] else []) g = ([], g || c) := by
@@ -493,11 +553,11 @@ mutual
 /-- the shape the layout lemmas need: no options, no comments, no methods -/
 def Plain : Item → Prop
   | .field f => SimpleField f ∨ SimpleValue f ∨ MapField f ∨ OptField f
-  | .rpc l _ _ _ _ os => l.noComments ∧ RpcOpts os
-  | .block _ _ l _ _ os ks => l.noComments ∧ BlockOpts os ∧ PlainList ks
+  | .rpc l _ _ _ _ os => l.leadOnly ∧ RpcOpts os
+  | .block _ _ l _ _ os ks => l.leadOnly ∧ BlockOpts os ∧ PlainList ks
 def PlainList : List Item → Prop
   | [] => True
-  | e :: r => Plain e ∧ PlainList r
+  | e :: r => Plain e ∧ CommentOk e.loc.leading ∧ PlainList r
 end
 
 mutual
@@ -521,19 +581,19 @@ theorem SimpleKids.plain : ∀ es, SimpleKids es → PlainList es
   | [], _ => trivial
   | e :: r, h => by
     simp only [SimpleKids] at h
-    exact ⟨SimpleItem.plain e h.1, SimpleKids.plain r h.2⟩
+    exact ⟨SimpleItem.plain e h.1, h.2.1, SimpleKids.plain r h.2.2⟩
 theorem SimpleValues.plain : ∀ es, SimpleValues es → PlainList es
   | [], _ => trivial
   | .field f :: r, h => by
     simp only [SimpleValues] at h
-    exact ⟨Or.inr (Or.inl h.1), SimpleValues.plain r h.2⟩
+    exact ⟨Or.inr (Or.inl h.1), h.2.1, SimpleValues.plain r h.2.2⟩
   | .rpc _ _ _ _ _ _ :: _, h => by simp [SimpleValues] at h
   | .block _ _ _ _ _ _ _ :: _, h => by simp [SimpleValues] at h
 theorem SimpleMembers.plain : ∀ es, SimpleMembers es → PlainList es
   | [], _ => trivial
   | .field f :: r, h => by
     simp only [SimpleMembers] at h
-    refine ⟨?_, SimpleMembers.plain r h.2⟩
+    refine ⟨?_, h.2.1, SimpleMembers.plain r h.2.2⟩
     rcases h.1.1 with h1 | h1
     · exact Or.inl h1
     · exact Or.inr (Or.inr (Or.inr h1))
@@ -541,7 +601,7 @@ theorem SimpleMembers.plain : ∀ es, SimpleMembers es → PlainList es
   | .block _ _ _ _ _ _ _ :: _, h => by simp [SimpleMembers] at h
 end
 
-theorem Plain.loc : ∀ e, Plain e → e.loc.noComments
+theorem Plain.loc : ∀ e, Plain e → e.loc.leadOnly
   | .field f, h => by
     rcases h with h | h | h | h
     · exact h.2.1
@@ -558,7 +618,7 @@ def leafLine (n : Nat) (f : FieldD) : String :=
   | .value => valueLine n f
 
 theorem fieldCmds_leaf (n : Nat) (f : FieldD) (h : SimpleField f ∨ SimpleValue f ∨ MapField f) :
-    fieldCmds n f = [Cmd.line (leafLine n f)] := by
+    bodyCmds n (.field f) = [Cmd.line (leafLine n f)] := by
   rcases h with h | h | h
   · rw [fieldCmds_simple n f h]; simp [leafLine, h.1]
   · rw [fieldCmds_value n f h]; simp [leafLine, h.1]
@@ -609,10 +669,10 @@ theorem lexLines_shift (k : Nat) : ∀ (ls : List String) (l : Nat), lexLines ls
     simp only [lexLines, sh_append, lineToks_shift]
     rw [show l + k + 1 = (l + 1) + k by omega, lexLines_shift k r (l + 1)]
 
-theorem fieldCmds_lines (n : Nat) (f : FieldD) (h : f.loc.noComments) :
-    fieldCmds n f = (fieldLines n f).map Cmd.line := by
-  unfold fieldCmds fieldLines
-  rw [leadingCmds_noComments n h, trailingCmds_noComments n h, inlineComment_noComments h]
+theorem fieldCmds_lines (n : Nat) (f : FieldD) (h : f.loc.leadOnly) :
+    bodyCmds n (.field f) = (fieldLines n f).map Cmd.line := by
+  simp only [bodyCmds, fieldLines]
+  rw [trailingCmds_nt n h.2, inlineComment_nt h.2]
   simp
 
 /-- what a run of `line` commands writes -/
@@ -800,24 +860,22 @@ theorem mkOpts_block (os : List SOpt) (s : Nat) :
 def rpcLine (n : Nat) (name inT outT : String) : String :=
   ind n ("rpc " ++ name ++ "(" ++ inT ++ ") returns (" ++ outT ++ ")" ++ " {}" ++ "")
 
-theorem rpcCmds_plain (n : Nat) (l : Loc) (i : Nat) (name inT outT : String) (hl : l.noComments) :
-    itemCmds n (.rpc l i name inT outT []) = [Cmd.line (rpcLine n name inT outT)] ++ [Cmd.gap] := by
-  simp only [itemCmds]
-  rw [leadingCmds_noComments n hl, trailingCmds_noComments n hl,
-    inlineComment_noComments hl]
+theorem rpcCmds_plain (n : Nat) (l : Loc) (i : Nat) (name inT outT : String) (hl : l.leadOnly) :
+    bodyCmds n (.rpc l i name inT outT []) = [Cmd.line (rpcLine n name inT outT)] ++ [Cmd.gap] := by
+  simp only [bodyCmds]
+  rw [trailingCmds_nt n hl.2, inlineComment_nt hl.2]
   simp [sortOpts, Order.isort, rpcLine]
 
 /-- the first line of a method with options -/
 def rpcOpenLine (n : Nat) (name inT outT : String) : String :=
   ind n ("rpc " ++ name ++ "(" ++ inT ++ ") returns (" ++ outT ++ ")" ++ " {" ++ "")
 
-theorem rpcCmds_opts (n : Nat) (l : Loc) (i : Nat) (name inT outT : String) (os : List SOpt) (hl : l.noComments)
+theorem rpcCmds_opts (n : Nat) (l : Loc) (i : Nat) (name inT outT : String) (os : List SOpt) (hl : l.leadOnly)
     (hne : os.isEmpty = false) :
-    itemCmds n (.rpc l i name inT outT os) = [Cmd.line (rpcOpenLine n name inT outT)] ++
+    bodyCmds n (.rpc l i name inT outT os) = [Cmd.line (rpcOpenLine n name inT outT)] ++
       (((sortOpts os).map (optionCmds (n + 1))).flatten ++ ([Cmd.endl (ind n "}")] ++ [Cmd.gap])) := by
-  simp only [itemCmds]
-  rw [leadingCmds_noComments n hl, trailingCmds_noComments n hl,
-    inlineComment_noComments hl]
+  simp only [bodyCmds]
+  rw [trailingCmds_nt n hl.2, inlineComment_nt hl.2]
   simp [hne, rpcOpenLine]
 
 theorem rpcOptCmds_indent (n : Nat) (os : List SOpt) :
@@ -851,7 +909,9 @@ theorem RpcOpts.nil : RpcOpts [] := by
   · simp [rpcRaws0, rpcChunks, rpcToks0_nil, splitOpt, rawsOf, mkOpts, groupOpts, unlocateShared, optsOk]
   · intro o ho; simp [rpcRaws0, rpcChunks, rpcToks0_nil, splitOpt, rawsOf, mkOpts, groupOpts, unlocateShared] at ho
 
-/-- the tokens of an element that starts on line `s` -/
+mutual
+/-- the tokens of an element that starts on line `s` (its own first token without comment; the first token of every
+child carries the child's leading comment) -/
 def itemToks (n : Nat) : Item → Nat → List PTok
   | .field f, s => if f.popts.isEmpty then lineToks (leafLine n f) s else sh s (fieldToks0 f)
   | .rpc _ _ name inT outT os, s =>
@@ -860,8 +920,27 @@ def itemToks (n : Nat) : Item → Nat → List PTok
   | .block kw _ _ _ name os kids, s =>
     if kids.isEmpty && os.isEmpty then lineToks (ind n (kw ++ " " ++ name ++ " {}")) s
     else lineToks (ind n (kw ++ " " ++ name ++ " {" ++ "")) s ++ sh s (optToks0 os) ++
-      toksOf (elemsCmds (n + 1) kids true 0 0) (!os.isEmpty) (s + 1 + optSpan os) ++
+      kT (n + 1) kids true 0 0 (!os.isEmpty) (s + 1 + optSpan os) ++
       lineToks (ind n "}") (rdKids kids true 0 0 (s + 1 + optSpan os) (!os.isEmpty)).2
+/-- the tokens of the elements written from line `L` on with gap flag `g`, as the reader finds them: the comment
+lines are not tokens, the first token below a comment carries it -/
+def kT (n : Nat) : List Item → Bool → Nat → Nat → Bool → Nat → List PTok
+  | [], _, _, _, _, _ => []
+  | e :: r, first, le0, lt, g, L =>
+    hd e.loc.leading (itemToks n e (kidStart e.loc.leading (gapCond first le0 e.loc.startLine e.typeOrder lt) L g)) ++
+      kT n r false e.loc.endLine e.typeOrder e.gapEnder
+        (rdItem e (kidStart e.loc.leading (gapCond first le0 e.loc.startLine e.typeOrder lt) L g)).2
+end
+
+theorem kT_nil (n : Nat) (first : Bool) (le0 lt : Nat) (g : Bool) (L : Nat) : kT n [] first le0 lt g L = [] := by
+  rw [kT]
+
+theorem kT_cons (n : Nat) (e : Item) (r : List Item) (first : Bool) (le0 lt : Nat) (g : Bool) (L : Nat) :
+    kT n (e :: r) first le0 lt g L =
+      hd e.loc.leading (itemToks n e (kidS e first le0 lt L g)) ++
+        kT n r false e.loc.endLine e.typeOrder e.gapEnder (rdItem e (kidS e first le0 lt L g)).2 := by
+  rw [kT]
+  rfl
 
 theorem rdItem_block_nil (kw : String) (t : Nat) (l : Loc) (i : Nat) (name : String) (kids : List Item) (s : Nat) :
     rdItem (.block kw t l i name [] kids) s =
@@ -874,22 +953,49 @@ theorem itemToks_block_nil (n : Nat) (kw : String) (t : Nat) (l : Loc) (i : Nat)
     itemToks n (.block kw t l i name [] kids) s =
       if kids.isEmpty then lineToks (ind n (kw ++ " " ++ name ++ " {}")) s
       else lineToks (ind n (kw ++ " " ++ name ++ " {" ++ "")) s ++
-        toksOf (elemsCmds (n + 1) kids true 0 0) false (s + 1) ++
+        kT (n + 1) kids true 0 0 false (s + 1) ++
         lineToks (ind n "}") (rdKids kids true 0 0 (s + 1) false).2 := by
   simp [itemToks, optSpan_nil, optToks0_nil]
+
+/-- where the element itself starts, after the gap of `printElements` and its leading comment -/
+theorem lead_exec (n : Nat) (e : Item) (hl : e.loc.leadOnly) (hc : CommentOk e.loc.leading) (first : Bool) (le0 lt : Nat)
+    (g : Bool) (L : Nat) :
+    startLine (exec ((if gapBefore first le0 lt e = true then [Cmd.gap] else []) ++ leadingCmds n e.loc) g).2
+      (L + nLines ((if gapBefore first le0 lt e = true then [Cmd.gap] else []) ++ leadingCmds n e.loc) g) =
+        kidS e first le0 lt L g := by
+  rw [leadingCmds_lead n hl]
+  unfold kidS kidStart
+  by_cases hlead : e.loc.leading = ""
+  · simp only [hlead, if_true, List.append_nil, exec_gapIf, nLines]
+    cases g <;> cases gapBefore first le0 lt e <;> rfl
+  · simp only [hlead, if_false]
+    have hne : leadLines n e.loc.leading ≠ [] := by
+      rcases hc with hc | hc
+      · exact absurd hc hlead
+      · unfold leadLines
+        intro h0
+        exact hc.1 (List.map_eq_nil_iff.mp h0)
+    obtain ⟨e1, e2⟩ := exec_lines_map (leadLines n e.loc.leading) true hne
+    have hx : exec ((if gapBefore first le0 lt e = true then [Cmd.gap] else []) ++
+        Cmd.gap :: (leadLines n e.loc.leading).map Cmd.line) g = ("" :: leadLines n e.loc.leading, false) := by
+      rw [exec_append, exec_gapIf]
+      simp only [exec, e1, e2, if_true, List.nil_append, List.cons_append]
+    simp only [nLines, hx]
+    simp only [startLine, Bool.false_eq_true, if_false, List.length_cons, leadLines, List.length_map]
+    omega
 
 /-- the state of the gap flag after the elements -/
 def endFlag : List Item → Bool → Bool
   | [], g => g
   | e :: r, _ => endFlag r e.gapEnder
 
-def startLine (g : Bool) (L : Nat) : Nat := if g then L + 1 else L
-
 mutual
 theorem lay_item : ∀ (e : Item), Plain e → ∀ (n : Nat) (g : Bool) (L : Nat),
-    toksOf (itemCmds n e) g L = itemToks n e (startLine g L) ∧
-    L + nLines (itemCmds n e) g = (rdItem e (startLine g L)).2 ∧
-    (exec (itemCmds n e) g).2 = e.gapEnder
+    (match e with
+     | .block _ _ _ _ _ _ _ => True
+     | e' => toksOf (bodyCmds n e') g L = itemToks n e' (startLine g L)) ∧
+    L + nLines (bodyCmds n e) g = (rdItem e (startLine g L)).2 ∧
+    (exec (bodyCmds n e) g).2 = e.gapEnder
   | .field f, h, n, g, L => by
     simp only [Plain] at h
     by_cases hp : f.popts = []
@@ -900,7 +1006,7 @@ theorem lay_item : ∀ (e : Item), Plain e → ∀ (n : Nat) (g : Bool) (L : Nat
         · exact Or.inr (Or.inr h)
         · exact absurd hp h.nonempty
       have hpe : f.popts.isEmpty = true := by simp [hp]
-      simp only [itemCmds, fieldCmds_leaf n f hleaf, itemToks, rdItem, hpe, if_true, Item.gapEnder, toksOf_line, startLine]
+      simp only [fieldCmds_leaf n f hleaf, itemToks, rdItem, hpe, if_true, Item.gapEnder, toksOf_line, startLine]
       refine ⟨trivial, ?_, ?_⟩
       · cases g <;> simp [nLines, exec]
       · cases g <;> simp [exec]
@@ -911,7 +1017,7 @@ theorem lay_item : ∀ (e : Item), Plain e → ∀ (n : Nat) (g : Bool) (L : Nat
         · exact absurd (Leaf.popts (Or.inr (Or.inr h))) hp
         · exact h
       have hpe : f.popts.isEmpty = false := by simpa using hp
-      simp only [itemCmds, itemToks, rdItem, hpe, Bool.false_eq_true, if_false, Item.gapEnder]
+      simp only [itemToks, rdItem, hpe, Bool.false_eq_true, if_false, Item.gapEnder]
       rw [fieldCmds_lines n f ho.loc, fieldLines_ind n f]
       obtain ⟨e1, e2⟩ := exec_lines_map ((fieldLines 0 f).map (ind n)) g (by simp [fieldLines_ne])
       refine ⟨?_, ?_, e2⟩
@@ -930,6 +1036,7 @@ theorem lay_item : ∀ (e : Item), Plain e → ∀ (n : Nat) (g : Bool) (L : Nat
   | .rpc l i name inT outT os, h, n, g, L => by
     simp only [Plain] at h
     obtain ⟨hl, ho⟩ := h
+    dsimp only
     by_cases hemp : os.isEmpty = true
     · have hnil : os = [] := by simpa using hemp
       subst hnil
@@ -961,8 +1068,7 @@ theorem lay_item : ∀ (e : Item), Plain e → ∀ (n : Nat) (g : Bool) (L : Nat
     rw [blockCmds_opts n kw t l i name os kids hl]
     by_cases hempty : (kids.isEmpty && os.isEmpty) = true
     · simp only [hempty, if_true, itemToks, rdItem, Item.gapEnder]
-      refine ⟨?_, ?_, ?_⟩
-      · rw [toksOf_append, toksOf_line]; simp [toksOf_gap, startLine]
+      refine ⟨trivial, ?_, ?_⟩
       · cases g <;> simp [nLines, exec, startLine]
       · cases g <;> simp [exec]
     · have hne : (kids.isEmpty && os.isEmpty) = false := by simpa using hempty
@@ -972,11 +1078,7 @@ theorem lay_item : ∀ (e : Item), Plain e → ∀ (n : Nat) (g : Bool) (L : Nat
       have hfirst : ∀ s : String, (exec [Cmd.line s] g).2 = false := by intro s; cases g <;> rfl
       have hn1 : ∀ s : String, L + nLines [Cmd.line s] g = startLine g L + 1 := by
         intro s; cases g <;> simp [nLines, exec, startLine]
-      refine ⟨?_, ?_, ?_⟩
-      · rw [toksOf_append, toksOf_append, toksOf_append, toksOf_append, toksOf_line, toksOf_gap, List.append_nil]
-        simp only [exec_append_snd, hfirst, nLines_append, toksOf_endl, hn1, o1, o2, o3, List.append_assoc]
-        rw [k2]
-        rfl
+      refine ⟨trivial, ?_, ?_⟩
       · simp only [nLines_append, exec_append_snd, hfirst, o2, o3]
         rw [← Nat.add_assoc, ← Nat.add_assoc, ← Nat.add_assoc, ← Nat.add_assoc, hn1, k2]
         simp [nLines, exec]
@@ -988,33 +1090,18 @@ theorem lay_kids : ∀ (es : List Item), PlainList es → ∀ (n : Nat) (first :
   | [], _, _, _, _, _, _, _ => by simp [elemsCmds, nLines, exec, rdKids, endFlag]
   | e :: r, h, n, first, le0, lt, g, L => by
     simp only [PlainList] at h
-    obtain ⟨he, hr⟩ := h
-    rw [elemsCmds_cons_unloc n e r first le0 lt]
-    obtain ⟨_, i2, i3⟩ := lay_item e he n (g || gapBefore first le0 lt e) L
-    obtain ⟨_, r2, r3⟩ := lay_kids r hr n false e.loc.endLine e.typeOrder e.gapEnder (rdItem e (startLine (g || gapBefore first le0 lt e) L)).2
+    obtain ⟨he, hc, hr⟩ := h
+    have hP := lead_exec n e (Plain.loc e he) hc first le0 lt g L
+    rw [elemsCmds_cons_unloc n e r first le0 lt, rdKids_cons]
+    generalize (if gapBefore first le0 lt e = true then [Cmd.gap] else []) ++ leadingCmds n e.loc = P at hP ⊢
+    obtain ⟨_, i2, i3⟩ := lay_item e he n (exec P g).2 (L + nLines P g)
+    rw [hP] at i2
+    obtain ⟨_, r2, r3⟩ := lay_kids r hr n false e.loc.endLine e.typeOrder e.gapEnder (rdItem e (kidS e first le0 lt L g)).2
     refine ⟨trivial, ?_, ?_⟩
-    · simp only [nLines_append, exec_append_snd, exec_gapIf, i3]
-      have h0 : nLines (if gapBefore first le0 lt e = true then [Cmd.gap] else []) g = 0 := by
-        cases gapBefore first le0 lt e <;> rfl
-      rw [h0, Nat.zero_add, ← Nat.add_assoc, i2, r2]
-      simp only [rdKids, startLine, gapBefore]
-      rfl
-    · simp only [exec_append_snd, exec_gapIf, i3, r3, endFlag]
+    · simp only [nLines_append, exec_append_snd, i3]
+      rw [← Nat.add_assoc, ← Nat.add_assoc, i2, r2]
+    · simp only [exec_append_snd, i3, r3, endFlag]
 end
-
-theorem toksOf_elems_cons (n : Nat) (e : Item) (r : List Item) (first : Bool) (le0 lt : Nat) (g : Bool) (L : Nat)
-    (he : Plain e) :
-    toksOf (elemsCmds n (e :: r) first le0 lt) g L =
-      itemToks n e (startLine (g || gapBefore first le0 lt e) L) ++
-      toksOf (elemsCmds n r false e.loc.endLine e.typeOrder) e.gapEnder (rdItem e (startLine (g || gapBefore first le0 lt e) L)).2 := by
-  obtain ⟨i1, i2, i3⟩ := lay_item e he n (g || gapBefore first le0 lt e) L
-  rw [elemsCmds_cons_unloc n e r first le0 lt, toksOf_append, toksOf_append]
-  simp only [exec_append_snd, exec_gapIf, i3, nLines_append]
-  have h0 : nLines (if gapBefore first le0 lt e = true then [Cmd.gap] else []) g = 0 := by
-    cases gapBefore first le0 lt e <;> rfl
-  have ht0 : toksOf (if gapBefore first le0 lt e = true then [Cmd.gap] else []) g L = [] := by
-    cases gapBefore first le0 lt e <;> rfl
-  rw [h0, ht0, Nat.add_zero, List.nil_append, i1, ← Nat.add_assoc, Nat.add_zero, i2]
 
 /-! ## no comments anywhere: every token is followed by an empty trailing comment -/
 
@@ -1047,6 +1134,19 @@ theorem trailOf_toksOf (cmds : List Cmd) (g : Bool) (L : Nat) (rest : List PTok)
     trailOf (toksOf cmds g L ++ rest) = "" :=
   trailOf_append _ _ (lexLines_cm _ _) hr
 
+theorem trailOf_hd (c : String) (a rest : List PTok) (hr : trailOf rest = "") (ha : a = [] ∨ True) :
+    trailOf (hd c a ++ rest) = "" := by
+  cases a with
+  | nil => simpa [hd] using hr
+  | cons t r => simp [hd, trailOf, leadCm]
+
+theorem trailOf_kT (n : Nat) : ∀ (es : List Item) (first : Bool) (le0 lt : Nat) (g : Bool) (L : Nat) (rest : List PTok),
+    trailOf rest = "" → trailOf (kT n es first le0 lt g L ++ rest) = ""
+  | [], _, _, _, _, _, rest, hr => by simpa [kT_nil] using hr
+  | e :: r, first, le0, lt, g, L, rest, hr => by
+    rw [kT_cons, List.append_assoc]
+    exact trailOf_hd _ _ _ (trailOf_kT n r _ _ _ _ _ rest hr) (Or.inr trivial)
+
 /-! ## the parser on the values of an enum -/
 
 theorem trailOf_opts (os : List SOpt) (s : Nat) (rest : List PTok) (hr : trailOf rest = "") :
@@ -1061,17 +1161,17 @@ def fieldsOf : List Item → List FieldD
   | .field f :: r => f :: fieldsOf r
   | _ :: r => fieldsOf r
 
-theorem enumBody_value (F : Nat) (f : FieldD) (h : SimpleValue f) (n s : Nat) (more : List PTok)
+theorem enumBody_value (F : Nat) (f : FieldD) (h : SimpleValue f) (n s : Nat) (c : String) (more : List PTok)
     (hm : trailOf more = "") (os : List RawOpt) (vs : List FieldD) :
-    enumBody (F + 1) (lineToks (valueLine n f) s ++ more) os vs =
-      enumBody F more os (vs ++ [{ f with loc := lineLoc s s, index := 0 }]) := by
+    enumBody (F + 1) (hd c (lineToks (valueLine n f) s) ++ more) os vs =
+      enumBody F more os (vs ++ [({ f with loc := lineLoc s s, index := 0 } : FieldD).withLead c]) := by
   obtain ⟨hk, hl, ho, hlab, hty, hn, hno, hj⟩ := h
   unfold valueLine
   rw [lineToks_value n f.name f.number s hn]
-  simp only [List.cons_append, T]
+  simp only [List.cons_append, T, hd]
   rw [enumBody]
   · rw [fieldTail_toks]
-    simp only [mkField, mkLoc, Cm.none, hm, mkOpts, groupOpts, unlocateShared, List.filter_nil, List.map_nil]
+    simp only [mkField, mkLoc, Cm.none, leadCm, hm, mkOpts, groupOpts, unlocateShared, List.filter_nil, List.map_nil]
     congr 2
     obtain ⟨k, lc, ix, lb, ty, nm, num, js, op⟩ := f
     simp only at hk hlab hty hj ho
@@ -1083,20 +1183,18 @@ theorem enumBody_value (F : Nat) (f : FieldD) (h : SimpleValue f) (n s : Nat) (m
 theorem enumBody_values : ∀ (es : List Item), SimpleValues es →
     ∀ (n : Nat) (first : Bool) (le0 lt L : Nat) (g : Bool) (F : Nat) (os : List RawOpt) (vs : List FieldD)
       (rest : List PTok), trailOf rest = "" →
-    enumBody (F + es.length) (toksOf (elemsCmds n es first le0 lt) g L ++ rest) os vs =
+    enumBody (F + es.length) (kT n es first le0 lt g L ++ rest) os vs =
       enumBody F rest os (vs ++ fieldsOf (rdKids es first le0 lt L g).1)
   | [], _, n, first, le0, lt, L, g, F, os, vs, rest, _ => by
-    simp [elemsCmds, toksOf_nil, rdKids, fieldsOf]
+    simp [kT_nil, rdKids, fieldsOf]
   | .field f :: r, h, n, first, le0, lt, L, g, F, os, vs, rest, hr => by
     simp only [SimpleValues] at h
     have hpe : f.popts.isEmpty = true := by simp [Leaf.popts (Or.inr (Or.inl h.1))]
-    rw [toksOf_elems_cons n (.field f) r first le0 lt g L (Or.inr (Or.inl h.1))]
+    rw [kT_cons, rdKids_cons]
     simp only [itemToks, hpe, if_true, leafLine, h.1.1, List.length_cons, List.append_assoc]
-    rw [← Nat.add_assoc, enumBody_value (F + r.length) f h.1 n _ _ (trailOf_toksOf _ _ _ _ hr)]
-    rw [enumBody_values r h.2 n false _ _ _ _ F os _ rest hr]
-    simp only [rdKids, rdItem, hpe, if_true, fieldsOf, List.append_assoc, List.cons_append, List.nil_append, Item.typeOrder,
-      Item.gapEnder, startLine, gapBefore]
-    rfl
+    rw [← Nat.add_assoc, enumBody_value (F + r.length) f h.1 n _ _ _ (trailOf_kT _ _ _ _ _ _ _ _ hr)]
+    rw [enumBody_values r h.2.2 n false _ _ _ _ F os _ rest hr]
+    simp only [rdItem, hpe, if_true, fieldsOf, List.append_assoc, List.cons_append, List.nil_append, Item.withLead, Item.loc]
   | .rpc _ _ _ _ _ _ :: _, h, _, _, _, _, _, _, _, _, _, _, _ => by simp [SimpleValues] at h
   | .block _ _ _ _ _ _ _ :: _, h, _, _, _, _, _, _, _, _, _, _, _ => by simp [SimpleValues] at h
 
@@ -1106,9 +1204,9 @@ theorem rdKids_values : ∀ (es : List Item), SimpleValues es → ∀ (first : B
   | .field f :: r, h, first, le0, lt, L, g => by
     simp only [SimpleValues] at h
     have hpe : f.popts.isEmpty = true := by simp [Leaf.popts (Or.inr (Or.inl h.1))]
-    simp only [rdKids, rdItem, hpe, if_true, fieldsOf, List.map_cons]
+    simp only [rdKids_cons, rdItem, hpe, if_true, fieldsOf, List.map_cons, Item.withLead]
     congr 1
-    exact rdKids_values r h.2 _ _ _ _ _
+    exact rdKids_values r h.2.2 _ _ _ _ _
   | .rpc _ _ _ _ _ _ :: _, h, _, _, _, _, _ => by simp [SimpleValues] at h
   | .block _ _ _ _ _ _ _ :: _, h, _, _, _, _, _ => by simp [SimpleValues] at h
 
@@ -1124,9 +1222,9 @@ theorem rdKids_members : ∀ (es : List Item), SimpleMembers es → ∀ (first :
   | [], _, _, _, _, _, _ => by simp [rdKids, fieldsOf]
   | .field f :: r, h, first, le0, lt, L, g => by
     simp only [SimpleMembers] at h
-    simp only [rdKids, rdItem_field_fst, fieldsOf, List.map_cons]
+    simp only [rdKids_cons, rdItem_field_fst, fieldsOf, List.map_cons, Item.withLead]
     congr 1
-    exact rdKids_members r h.2 _ _ _ _ _
+    exact rdKids_members r h.2.2 _ _ _ _ _
   | .rpc _ _ _ _ _ _ :: _, h, _, _, _, _, _ => by simp [SimpleMembers] at h
   | .block _ _ _ _ _ _ _ :: _, h, _, _, _, _, _ => by simp [SimpleMembers] at h
 
@@ -1134,7 +1232,7 @@ theorem rdKids_members_ne : ∀ (es : List Item), SimpleMembers es → es ≠ []
     fieldsOf (rdKids es first le0 lt L g).1 ≠ []
   | [], _, h, _, _, _, _, _ => (h rfl).elim
   | .field f :: r, _, _, first, le0, lt, L, g => by
-    simp [rdKids, rdItem_field_fst, fieldsOf]
+    simp [rdKids_cons, rdItem_field_fst, fieldsOf, Item.withLead]
   | .rpc _ _ _ _ _ _ :: _, h, _, _, _, _, _, _ => by simp [SimpleMembers] at h
   | .block _ _ _ _ _ _ _ :: _, h, _, _, _, _, _, _ => by simp [SimpleMembers] at h
 
@@ -1200,18 +1298,19 @@ theorem fieldLineToks_head (label : String) (hlab : label = "" ∨ label = "repe
     exact ⟨_, _, rfl, Or.inr ⟨"optional", rfl, by decide, by decide, by decide, by decide⟩⟩
 
 /-- a field in a message body -/
-theorem messageBody_field (F : Nat) (f : FieldD) (h : SimpleField f) (n s : Nat) (more : List PTok)
+theorem messageBody_field (F : Nat) (f : FieldD) (h : SimpleField f) (n s : Nat) (c : String) (more : List PTok)
     (hm : trailOf more = "") (os : List RawOpt) (ks : List Item) :
-    messageBody (F + 1) (lineToks (fieldLine n f) s ++ more) os ks =
-      messageBody F more os (ks ++ [.field { f with loc := lineLoc s s, index := 0 }]) := by
+    messageBody (F + 1) (hd c (lineToks (fieldLine n f) s) ++ more) os ks =
+      messageBody F more os (ks ++ [.field (({ f with loc := lineLoc s s, index := 0 } : FieldD).withLead c)]) := by
   obtain ⟨hk, hl, ho, hlab, hn, hj, abs, first, rest, hf, hr, hty, hmap, hkw⟩ := h
   unfold fieldLine
   rw [hty, lineToks_field n f.label hlab abs first rest f.name f.number s hf hr hn]
   obtain ⟨t, tl, hhead, hstart⟩ := fieldLineToks_head f.label hlab abs first rest f.name f.number s hkw
   have hparse := parseField_toks f.label hlab abs first rest f.name f.number s more hf hmap
     (fun h1 h2 => ⟨(hkw h1 h2).1, (hkw h1 h2).2.1⟩)
-  rw [hhead, List.cons_append] at hparse ⊢
-  rw [messageBody_default F t s Cm.none _ hstart, hparse]
+  rw [hhead, List.cons_append] at hparse
+  rw [hhead, hd_cons, List.cons_append]
+  rw [messageBody_default F t s _ _ hstart, parseField_hd_some t s c _ _ _ hparse]
   simp only [hm]
   congr 2
   obtain ⟨k, lc, ix, lb, ty, nm, num, js, op⟩ := f
@@ -1220,18 +1319,18 @@ theorem messageBody_field (F : Nat) (f : FieldD) (h : SimpleField f) (n s : Nat)
   rfl
 
 /-- a map field in a message body -/
-theorem messageBody_mapfield (F : Nat) (f : FieldD) (h : MapField f) (n s : Nat) (more : List PTok)
+theorem messageBody_mapfield (F : Nat) (f : FieldD) (h : MapField f) (n s : Nat) (c : String) (more : List PTok)
     (hm : trailOf more = "") (os : List RawOpt) (ks : List Item) :
-    messageBody (F + 1) (lineToks (fieldLine n f) s ++ more) os ks =
-      messageBody F more os (ks ++ [.field { f with loc := lineLoc s s, index := 0 }]) := by
+    messageBody (F + 1) (hd c (lineToks (fieldLine n f) s) ++ more) os ks =
+      messageBody F more os (ks ++ [.field (({ f with loc := lineLoc s s, index := 0 } : FieldD).withLead c)]) := by
   obtain ⟨hk, hl, ho, hlab, hn, hj, k, abs, first, rest, hki, hf, hr, hty⟩ := h
   unfold fieldLine
   rw [hty, hlab, lineToks_map n k abs first rest f.name f.number s hki hf hr hn]
   have hparse := parseField_map k abs first rest f.name f.number s more hki hf
   have hstart : FieldStart (.ident "map") := Or.inr ⟨"map", rfl, by decide, by decide, by decide, by decide⟩
   unfold mapLineToks at hparse ⊢
-  simp only [List.cons_append, T] at hparse ⊢
-  rw [messageBody_default F _ s Cm.none _ hstart, hparse]
+  simp only [List.cons_append, T, hd] at hparse ⊢
+  rw [messageBody_default F _ s _ _ hstart, parseField_hd_some _ s c _ _ _ hparse]
   simp only [hm]
   congr 2
   obtain ⟨k', lc, ix, lb, ty, nm, num, js, op⟩ := f
@@ -1272,33 +1371,34 @@ theorem headToks_start (f : FieldD) (w : TyW) (hlab : f.label = "" ∨ f.label =
     exact ⟨_, _, rfl, Or.inr ⟨"optional", rfl, by decide, by decide, by decide, by decide⟩⟩
 
 /-- a field with options in a message body -/
-theorem messageBody_optfield (F : Nat) (f : FieldD) (h : OptField f) (s : Nat) (more : List PTok)
+theorem messageBody_optfield (F : Nat) (f : FieldD) (h : OptField f) (s : Nat) (c : String) (more : List PTok)
     (hm : trailOf more = "") (os : List RawOpt) (ks : List Item) :
-    messageBody (F + 1) (sh s (fieldToks0 f) ++ more) os ks =
-      messageBody F more os (ks ++ [.field (rdField f s)]) := by
+    messageBody (F + 1) (hd c (sh s (fieldToks0 f)) ++ more) os ks =
+      messageBody F more os (ks ++ [.field ((rdField f s).withLead c)]) := by
   have hparse := optField_parse f h s more hm
-  obtain ⟨w, raws, e, c, hw, hty, htoks, hbr, _⟩ := h.read
+  obtain ⟨w, raws, e, c', hw, hty, htoks, hbr, _⟩ := h.read
   obtain ⟨t, tl, hhead, hstart⟩ := headToks_start f w h.lab hw s
   have hsh : sh s (fieldToks0 f) = ⟨t, s, Cm.none⟩ :: (tl ++ sh s (rdBody f)) := by
     rw [htoks, sh_append, sh_headToks, Nat.zero_add, hhead]; rfl
-  rw [hsh, List.cons_append] at hparse ⊢
-  rw [messageBody_default F t s Cm.none _ hstart, hparse]
+  rw [hsh, List.cons_append] at hparse
+  rw [hsh, hd_cons, List.cons_append]
+  rw [messageBody_default F t s _ _ hstart, parseField_hd_some t s c _ _ _ hparse]
 
-theorem messageBody_msg_step (F : Nat) (name : String) (s : Nat) (r : List PTok) (os : List RawOpt) (ks : List Item) :
-    messageBody (F + 1) (T (.ident "message") s :: T (.ident name) s :: T (.sym '{') s :: r) os ks =
+theorem messageBody_msg_step (F : Nat) (name : String) (s : Nat) (cm : Cm) (r : List PTok) (os : List RawOpt) (ks : List Item) :
+    messageBody (F + 1) (⟨.ident "message", s, cm⟩ :: T (.ident name) s :: T (.sym '{') s :: r) os ks =
       match messageBody F r [] [] with
       | some (mos, mks, le, r') =>
-        messageBody F r' os (ks ++ [.block "message" 1 (mkLoc s le Cm.none (trailOf r)) 0 name (mkOpts s mos) mks])
+        messageBody F r' os (ks ++ [.block "message" 1 (mkLoc s le cm (trailOf r)) 0 name (mkOpts s mos) mks])
       | none => none := by
   simp only [T]
   rw [messageBody]
   rfl
 
-theorem messageBody_enum_step (F : Nat) (name : String) (s : Nat) (r : List PTok) (os : List RawOpt) (ks : List Item) :
-    messageBody (F + 1) (T (.ident "enum") s :: T (.ident name) s :: T (.sym '{') s :: r) os ks =
+theorem messageBody_enum_step (F : Nat) (name : String) (s : Nat) (cm : Cm) (r : List PTok) (os : List RawOpt) (ks : List Item) :
+    messageBody (F + 1) (⟨.ident "enum", s, cm⟩ :: T (.ident name) s :: T (.sym '{') s :: r) os ks =
       match enumBody F r [] [] with
       | some (eos, vs, le, r') =>
-        messageBody F r' os (ks ++ [.block "enum" 2 (mkLoc s le Cm.none (trailOf r)) 0 name (mkOpts s eos) (vs.map .field)])
+        messageBody F r' os (ks ++ [.block "enum" 2 (mkLoc s le cm (trailOf r)) 0 name (mkOpts s eos) (vs.map .field)])
       | none => none := by
   simp only [T]
   rw [messageBody]
@@ -1328,18 +1428,19 @@ theorem oneofBody_default (F : Nat) (t : Grammar.Tok) (l : Nat) (c : Cm) (tl : L
            | (simp at this))
 
 /-- a member of a oneof -/
-theorem oneofBody_field (F : Nat) (f : FieldD) (h : SimpleField f) (n s : Nat) (more : List PTok)
+theorem oneofBody_field (F : Nat) (f : FieldD) (h : SimpleField f) (n s : Nat) (c : String) (more : List PTok)
     (hm : trailOf more = "") (os : List RawOpt) (fs : List FieldD) :
-    oneofBody (F + 1) (lineToks (fieldLine n f) s ++ more) os fs =
-      oneofBody F more os (fs ++ [{ f with loc := lineLoc s s, index := 0 }]) := by
+    oneofBody (F + 1) (hd c (lineToks (fieldLine n f) s) ++ more) os fs =
+      oneofBody F more os (fs ++ [({ f with loc := lineLoc s s, index := 0 } : FieldD).withLead c]) := by
   obtain ⟨hk, hl, ho, hlab, hn, hj, abs, first, rest, hf, hr, hty, hmap, hkw⟩ := h
   unfold fieldLine
   rw [hty, lineToks_field n f.label hlab abs first rest f.name f.number s hf hr hn]
   obtain ⟨t, tl, hhead, hstart⟩ := fieldLineToks_head f.label hlab abs first rest f.name f.number s hkw
   have hparse := parseField_toks f.label hlab abs first rest f.name f.number s more hf hmap
     (fun h1 h2 => ⟨(hkw h1 h2).1, (hkw h1 h2).2.1⟩)
-  rw [hhead, List.cons_append] at hparse ⊢
-  rw [oneofBody_default F t s Cm.none _ hstart, hparse]
+  rw [hhead, List.cons_append] at hparse
+  rw [hhead, hd_cons, List.cons_append]
+  rw [oneofBody_default F t s _ _ hstart, parseField_hd_some t s c _ _ _ hparse]
   simp only [hm]
   congr 2
   obtain ⟨k, lc, ix, lb, ty, nm, num, js, op⟩ := f
@@ -1348,54 +1449,54 @@ theorem oneofBody_field (F : Nat) (f : FieldD) (h : SimpleField f) (n s : Nat) (
   rfl
 
 /-- a member of a oneof with options -/
-theorem oneofBody_optfield (F : Nat) (f : FieldD) (h : OptField f) (s : Nat) (more : List PTok)
+theorem oneofBody_optfield (F : Nat) (f : FieldD) (h : OptField f) (s : Nat) (c : String) (more : List PTok)
     (hm : trailOf more = "") (os : List RawOpt) (fs : List FieldD) :
-    oneofBody (F + 1) (sh s (fieldToks0 f) ++ more) os fs = oneofBody F more os (fs ++ [rdField f s]) := by
+    oneofBody (F + 1) (hd c (sh s (fieldToks0 f)) ++ more) os fs = oneofBody F more os (fs ++ [(rdField f s).withLead c]) := by
   have hparse := optField_parse f h s more hm
-  obtain ⟨w, raws, e, c, hw, hty, htoks, hbr, _⟩ := h.read
+  obtain ⟨w, raws, e, c', hw, hty, htoks, hbr, _⟩ := h.read
   obtain ⟨t, tl, hhead, hstart⟩ := headToks_start f w h.lab hw s
   have hsh : sh s (fieldToks0 f) = ⟨t, s, Cm.none⟩ :: (tl ++ sh s (rdBody f)) := by
     rw [htoks, sh_append, sh_headToks, Nat.zero_add, hhead]; rfl
-  rw [hsh, List.cons_append] at hparse ⊢
-  rw [oneofBody_default F t s Cm.none _ hstart, hparse]
+  rw [hsh, List.cons_append] at hparse
+  rw [hsh, hd_cons, List.cons_append]
+  rw [oneofBody_default F t s _ _ hstart, parseField_hd_some t s c _ _ _ hparse]
 
-theorem oneofBody_member (F : Nat) (f : FieldD) (h : SimpleField f ∨ OptField f) (n s : Nat) (more : List PTok)
+theorem oneofBody_member (F : Nat) (f : FieldD) (h : SimpleField f ∨ OptField f) (n s : Nat) (c : String) (more : List PTok)
     (hm : trailOf more = "") (os : List RawOpt) (fs : List FieldD) :
-    oneofBody (F + 1) (itemToks n (.field f) s ++ more) os fs = oneofBody F more os (fs ++ [rdFieldAny f s]) := by
+    oneofBody (F + 1) (hd c (itemToks n (.field f) s) ++ more) os fs =
+      oneofBody F more os (fs ++ [(rdFieldAny f s).withLead c]) := by
   rcases h with h | h
   · have hpe : f.popts.isEmpty = true := by simp [Leaf.popts (Or.inl h)]
     have hleaf : leafLine n f = fieldLine n f := by simp [leafLine, h.1]
     simp only [itemToks, rdFieldAny, hpe, if_true, hleaf]
-    exact oneofBody_field F f h n s more hm os fs
+    exact oneofBody_field F f h n s c more hm os fs
   · have hpe : f.popts.isEmpty = false := by simpa using h.nonempty
     simp only [itemToks, rdFieldAny, hpe, Bool.false_eq_true, if_false]
-    exact oneofBody_optfield F f h s more hm os fs
+    exact oneofBody_optfield F f h s c more hm os fs
 
 theorem oneofBody_members : ∀ (es : List Item), SimpleMembers es →
     ∀ (n : Nat) (first : Bool) (le0 lt L : Nat) (g : Bool) (F : Nat) (os : List RawOpt) (fs : List FieldD)
       (rest : List PTok), trailOf rest = "" →
-    oneofBody (F + es.length) (toksOf (elemsCmds n es first le0 lt) g L ++ rest) os fs =
+    oneofBody (F + es.length) (kT n es first le0 lt g L ++ rest) os fs =
       oneofBody F rest os (fs ++ fieldsOf (rdKids es first le0 lt L g).1)
   | [], _, n, first, le0, lt, L, g, F, os, fs, rest, _ => by
-    simp [elemsCmds, toksOf_nil, rdKids, fieldsOf]
+    simp [kT_nil, rdKids, fieldsOf]
   | .field f :: r, h, n, first, le0, lt, L, g, F, os, fs, rest, hr => by
     simp only [SimpleMembers] at h
-    rw [toksOf_elems_cons n (.field f) r first le0 lt g L (member_plain h.1.1)]
+    rw [kT_cons, rdKids_cons]
     simp only [List.length_cons, List.append_assoc]
-    rw [← Nat.add_assoc, oneofBody_member (F + r.length) f h.1.1 n _ _ (trailOf_toksOf _ _ _ _ hr)]
-    rw [oneofBody_members r h.2 n false _ _ _ _ F os _ rest hr]
-    simp only [rdKids, rdItem_field_fst, fieldsOf, List.append_assoc, List.cons_append, List.nil_append, Item.typeOrder,
-      Item.gapEnder, startLine, gapBefore]
-    rfl
+    rw [← Nat.add_assoc, oneofBody_member (F + r.length) f h.1.1 n _ _ _ (trailOf_kT _ _ _ _ _ _ _ _ hr)]
+    rw [oneofBody_members r h.2.2 n false _ _ _ _ F os _ rest hr]
+    simp only [rdItem_field_fst, fieldsOf, List.append_assoc, List.cons_append, List.nil_append, Item.withLead, Item.loc]
   | .rpc _ _ _ _ _ _ :: _, h, _, _, _, _, _, _, _, _, _, _, _ => by simp [SimpleMembers] at h
   | .block _ _ _ _ _ _ _ :: _, h, _, _, _, _, _, _, _, _, _, _, _ => by simp [SimpleMembers] at h
 
-theorem messageBody_oneof_step (F : Nat) (name : String) (s : Nat) (r : List PTok) (os : List RawOpt) (ks : List Item) :
-    messageBody (F + 1) (T (.ident "oneof") s :: T (.ident name) s :: T (.sym '{') s :: r) os ks =
+theorem messageBody_oneof_step (F : Nat) (name : String) (s : Nat) (cm : Cm) (r : List PTok) (os : List RawOpt) (ks : List Item) :
+    messageBody (F + 1) (⟨.ident "oneof", s, cm⟩ :: T (.ident name) s :: T (.sym '{') s :: r) os ks =
       match oneofBody F r [] [] with
       | some (_, [], _, _) => none
       | some (oos, fs, le, r') =>
-        messageBody F r' os (ks ++ [.block "oneof" 0 (mkLoc s le Cm.none (trailOf r)) 0 name (mkOpts s oos) (fs.map .field)])
+        messageBody F r' os (ks ++ [.block "oneof" 0 (mkLoc s le cm (trailOf r)) 0 name (mkOpts s oos) (fs.map .field)])
       | none => none := by
   simp only [T]
   rw [messageBody]
@@ -1426,26 +1527,30 @@ theorem mkLoc_plain (s e : Nat) : mkLoc s e Cm.none "" = lineLoc s e := rfl
 theorem lineToks_T_trail (s : String) (l : Nat) (more : List PTok) (hm : trailOf more = "") :
     trailOf (lineToks s l ++ more) = "" := trailOf_append _ _ (lineToks_cm s l) hm
 
+theorem mkLoc_leadPlain (s e : Nat) (c : String) : mkLoc s e (leadCm c) "" = (lineLoc s e).withLead c := rfl
+
+theorem hd_T (c : String) (t : Grammar.Tok) (l : Nat) (r : List PTok) : hd c (T t l :: r) = ⟨t, l, leadCm c⟩ :: r := rfl
+
 mutual
-theorem mb_item : ∀ (e : Item), SimpleItem e → ∀ (n s G : Nat) (os : List RawOpt) (ks : List Item) (more : List PTok),
+theorem mb_item : ∀ (e : Item), SimpleItem e → ∀ (n s G : Nat) (c : String) (os : List RawOpt) (ks : List Item) (more : List PTok),
     trailOf more = "" → need1 e ≤ G →
-    messageBody (G + 1) (itemToks n e s ++ more) os ks = messageBody G more os (ks ++ [(rdItem e s).1])
-  | .field f, h, n, s, G, os, ks, more, hm, _ => by
+    messageBody (G + 1) (hd c (itemToks n e s) ++ more) os ks = messageBody G more os (ks ++ [(rdItem e s).1.withLead c])
+  | .field f, h, n, s, G, c, os, ks, more, hm, _ => by
     simp only [SimpleItem] at h
     rcases h with h | h | h
     · have hleaf : leafLine n f = fieldLine n f := by simp [leafLine, h.1]
       have hpe : f.popts.isEmpty = true := by simp [Leaf.popts (Or.inl h)]
-      simp only [itemToks, rdItem, hpe, if_true, hleaf]
-      exact messageBody_field G f h n s more hm os ks
+      simp only [itemToks, rdItem, hpe, if_true, hleaf, Item.withLead]
+      exact messageBody_field G f h n s c more hm os ks
     · have hleaf : leafLine n f = fieldLine n f := by simp [leafLine, h.1]
       have hpe : f.popts.isEmpty = true := by simp [Leaf.popts (Or.inr (Or.inr h))]
-      simp only [itemToks, rdItem, hpe, if_true, hleaf]
-      exact messageBody_mapfield G f h n s more hm os ks
+      simp only [itemToks, rdItem, hpe, if_true, hleaf, Item.withLead]
+      exact messageBody_mapfield G f h n s c more hm os ks
     · have hpe : f.popts.isEmpty = false := by simpa using h.nonempty
-      simp only [itemToks, rdItem, hpe, Bool.false_eq_true, if_false]
-      exact messageBody_optfield G f h s more hm os ks
-  | .rpc _ _ _ _ _ _, h, _, _, _, _, _, _, _, _ => h.elim
-  | .block kw t l i name opts kids, h, n, s, G, os, ks, more, hm, hG => by
+      simp only [itemToks, rdItem, hpe, Bool.false_eq_true, if_false, Item.withLead]
+      exact messageBody_optfield G f h s c more hm os ks
+  | .rpc _ _ _ _ _ _, h, _, _, _, _, _, _, _, _, _ => h.elim
+  | .block kw t l i name opts kids, h, n, s, G, c, os, ks, more, hm, hG => by
     simp only [SimpleItem] at h
     obtain ⟨hl, ho, hname, hcase⟩ := h
     rcases hcase with ⟨hkw, ht, hk⟩ | ⟨hkw, ht, hk⟩ | ⟨hkw, ht, hne0, hk, hon⟩
@@ -1456,7 +1561,7 @@ theorem mb_item : ∀ (e : Item), SimpleItem e → ∀ (n s G : Nat) (os : List 
       have hne : kids.isEmpty = false := by cases kids with | nil => exact (hne0 rfl).elim | cons _ _ => rfl
       simp only [itemToks_block_nil, rdItem_block_nil, hne, Bool.false_eq_true, if_false]
       rw [lineToks_open n "oneof" name s isIdent_oneof hname, lineToks_close]
-      simp only [List.cons_append, List.nil_append, List.append_assoc]
+      simp only [List.cons_append, List.nil_append, List.append_assoc, hd_T]
       rw [messageBody_oneof_step]
       obtain ⟨F', hGe, h1⟩ : ∃ F', G = F' + kids.length ∧ 1 ≤ F' := ⟨G - kids.length, by omega, by omega⟩
       obtain ⟨F'', rfl⟩ : ∃ F'', F' = F'' + 1 := ⟨F' - 1, by omega⟩
@@ -1466,9 +1571,10 @@ theorem mb_item : ∀ (e : Item), SimpleItem e → ∀ (n s G : Nat) (os : List 
       obtain ⟨a, b, hab⟩ := List.exists_cons_of_ne_nil (rdKids_members_ne kids hk hne0 true 0 0 (s + 1) false)
       simp only [List.nil_append, hab]
       simp only [mkOpts, groupOpts, unlocateShared, List.map_nil]
-      have htr : trailOf (toksOf (elemsCmds (n + 1) kids true 0 0) false (s + 1) ++
-          T (.sym '}') (rdKids kids true 0 0 (s + 1) false).2 :: more) = "" := trailOf_toksOf _ _ _ _ rfl
-      rw [htr, mkLoc_plain, ← hab, ← rdKids_members kids hk]
+      have htr : trailOf (kT (n + 1) kids true 0 0 false (s + 1) ++
+          T (.sym '}') (rdKids kids true 0 0 (s + 1) false).2 :: more) = "" := trailOf_kT _ _ _ _ _ _ _ _ rfl
+      rw [htr, mkLoc_leadPlain, ← hab, ← rdKids_members kids hk]
+      rfl
     · -- a nested message
       subst hkw ht
       simp only [need1] at hG
@@ -1477,22 +1583,23 @@ theorem mb_item : ∀ (e : Item), SimpleItem e → ∀ (n s G : Nat) (os : List 
         obtain ⟨rfl, rfl⟩ := hempty
         simp only [itemToks, rdItem, List.isEmpty_nil, Bool.and_self, if_true]
         rw [lineToks_empty n "message" name s isIdent_message hname]
-        simp only [List.cons_append, List.nil_append]
+        simp only [List.cons_append, List.nil_append, hd_T]
         rw [messageBody_msg_step]
         obtain ⟨G', rfl⟩ : ∃ G', G = G' + 1 := ⟨G - 1, by omega⟩
         rw [messageBody_close]
         simp only [mkOpts, groupOpts, unlocateShared, List.map_nil]
         have : trailOf (T (.sym '}') s :: more) = "" := rfl
-        rw [this, mkLoc_plain]
+        rw [this, mkLoc_leadPlain]
+        rfl
       · have hne : (kids.isEmpty && opts.isEmpty) = false := by simpa using hempty
         simp only [itemToks, rdItem, hne, Bool.false_eq_true, if_false]
         rw [lineToks_open n "message" name s isIdent_message hname, lineToks_close]
-        simp only [List.cons_append, List.nil_append, List.append_assoc]
+        simp only [List.cons_append, List.nil_append, List.append_assoc, hd_T]
         rw [messageBody_msg_step]
         obtain ⟨F'', hGe⟩ : ∃ F'', G = ((F'' + 1) + kids.length) + (optChunks opts).length :=
           ⟨G - kids.length - (optChunks opts).length - 1, by omega⟩
         have hopts := mb_opts s (optChunks opts) ho.chunks ((F'' + 1) + kids.length)
-          (toksOf (elemsCmds (n + 1) kids true 0 0) (!opts.isEmpty) (s + 1 + optSpan opts) ++
+          (kT (n + 1) kids true 0 0 (!opts.isEmpty) (s + 1 + optSpan opts) ++
             T (.sym '}') (rdKids kids true 0 0 (s + 1 + optSpan opts) (!opts.isEmpty)).2 :: more) [] []
         rw [ho.whole] at hopts
         have hkids := mb_kids kids hk (n + 1) true 0 0 (s + 1 + optSpan opts) (!opts.isEmpty) (F'' + 1)
@@ -1500,12 +1607,13 @@ theorem mb_item : ∀ (e : Item), SimpleItem e → ∀ (n s G : Nat) (os : List 
           (T (.sym '}') (rdKids kids true 0 0 (s + 1 + optSpan opts) (!opts.isEmpty)).2 :: more) rfl (by omega)
         rw [hGe, hopts, hkids, messageBody_close]
         simp only [List.nil_append]
-        have htr : trailOf (sh s (optToks0 opts) ++ (toksOf (elemsCmds (n + 1) kids true 0 0) (!opts.isEmpty) (s + 1 + optSpan opts) ++
+        have htr : trailOf (sh s (optToks0 opts) ++ (kT (n + 1) kids true 0 0 (!opts.isEmpty) (s + 1 + optSpan opts) ++
             T (.sym '}') (rdKids kids true 0 0 (s + 1 + optSpan opts) (!opts.isEmpty)).2 :: more)) = "" :=
-          trailOf_opts _ _ _ (trailOf_toksOf _ _ _ _ rfl)
+          trailOf_opts _ _ _ (trailOf_kT _ _ _ _ _ _ _ _ rfl)
         have hmk := mkOpts_block opts s
         unfold optRaws0 at hmk
-        rw [htr, mkLoc_plain, hmk]
+        rw [htr, mkLoc_leadPlain, hmk]
+        rfl
     · -- a nested enum
       subst hkw ht
       simp only [need1] at hG
@@ -1514,22 +1622,23 @@ theorem mb_item : ∀ (e : Item), SimpleItem e → ∀ (n s G : Nat) (os : List 
         obtain ⟨rfl, rfl⟩ := hempty
         simp only [itemToks, rdItem, List.isEmpty_nil, Bool.and_self, if_true]
         rw [lineToks_empty n "enum" name s isIdent_enum hname]
-        simp only [List.cons_append, List.nil_append]
+        simp only [List.cons_append, List.nil_append, hd_T]
         rw [messageBody_enum_step]
         obtain ⟨G', rfl⟩ : ∃ G', G = G' + 1 := ⟨G - 1, by omega⟩
         rw [enumBody_close]
         simp only [mkOpts, groupOpts, unlocateShared, List.map_nil]
         have : trailOf (T (.sym '}') s :: more) = "" := rfl
-        rw [this, mkLoc_plain]
+        rw [this, mkLoc_leadPlain]
+        rfl
       · have hne : (kids.isEmpty && opts.isEmpty) = false := by simpa using hempty
         simp only [itemToks, rdItem, hne, Bool.false_eq_true, if_false]
         rw [lineToks_open n "enum" name s isIdent_enum hname, lineToks_close]
-        simp only [List.cons_append, List.nil_append, List.append_assoc]
+        simp only [List.cons_append, List.nil_append, List.append_assoc, hd_T]
         rw [messageBody_enum_step]
         obtain ⟨F'', hGe⟩ : ∃ F'', G = ((F'' + 1) + kids.length) + (optChunks opts).length :=
           ⟨G - kids.length - (optChunks opts).length - 1, by omega⟩
         have hopts := eb_opts s (optChunks opts) ho.chunks ((F'' + 1) + kids.length)
-          (toksOf (elemsCmds (n + 1) kids true 0 0) (!opts.isEmpty) (s + 1 + optSpan opts) ++
+          (kT (n + 1) kids true 0 0 (!opts.isEmpty) (s + 1 + optSpan opts) ++
             T (.sym '}') (rdKids kids true 0 0 (s + 1 + optSpan opts) (!opts.isEmpty)).2 :: more) [] []
         rw [ho.whole] at hopts
         have hvals := enumBody_values kids hk (n + 1) true 0 0 (s + 1 + optSpan opts) (!opts.isEmpty) (F'' + 1)
@@ -1537,42 +1646,46 @@ theorem mb_item : ∀ (e : Item), SimpleItem e → ∀ (n s G : Nat) (os : List 
           (T (.sym '}') (rdKids kids true 0 0 (s + 1 + optSpan opts) (!opts.isEmpty)).2 :: more) rfl
         rw [hGe, hopts, hvals, enumBody_close]
         simp only [List.nil_append]
-        have htr : trailOf (sh s (optToks0 opts) ++ (toksOf (elemsCmds (n + 1) kids true 0 0) (!opts.isEmpty) (s + 1 + optSpan opts) ++
+        have htr : trailOf (sh s (optToks0 opts) ++ (kT (n + 1) kids true 0 0 (!opts.isEmpty) (s + 1 + optSpan opts) ++
             T (.sym '}') (rdKids kids true 0 0 (s + 1 + optSpan opts) (!opts.isEmpty)).2 :: more)) = "" :=
-          trailOf_opts _ _ _ (trailOf_toksOf _ _ _ _ rfl)
+          trailOf_opts _ _ _ (trailOf_kT _ _ _ _ _ _ _ _ rfl)
         have hmk := mkOpts_block opts s
         unfold optRaws0 at hmk
-        rw [htr, mkLoc_plain, hmk, ← rdKids_values kids hk]
+        rw [htr, mkLoc_leadPlain, hmk, ← rdKids_values kids hk]
+        rfl
 theorem mb_kids : ∀ (es : List Item), SimpleKids es → ∀ (n : Nat) (first : Bool) (le0 lt L : Nat) (g : Bool) (F : Nat)
     (os : List RawOpt) (ks : List Item) (rest : List PTok), trailOf rest = "" → needAll es ≤ F →
-    messageBody (F + es.length) (toksOf (elemsCmds n es first le0 lt) g L ++ rest) os ks =
+    messageBody (F + es.length) (kT n es first le0 lt g L ++ rest) os ks =
       messageBody F rest os (ks ++ (rdKids es first le0 lt L g).1)
   | [], _, n, first, le0, lt, L, g, F, os, ks, rest, _, _ => by
-    simp [elemsCmds, toksOf_nil, rdKids]
+    simp [kT_nil, rdKids]
   | e :: r, h, n, first, le0, lt, L, g, F, os, ks, rest, hr, hF => by
     simp only [SimpleKids] at h
     simp only [needAll] at hF
-    rw [toksOf_elems_cons n e r first le0 lt g L (SimpleItem.plain e h.1)]
+    rw [kT_cons, rdKids_cons]
     simp only [List.length_cons, List.append_assoc]
-    rw [← Nat.add_assoc, mb_item e h.1 n _ (F + r.length) os ks _ (trailOf_toksOf _ _ _ _ hr) (by omega)]
-    rw [mb_kids r h.2 n false _ _ _ _ F os _ rest hr (by omega)]
-    simp only [rdKids, List.append_assoc, List.cons_append, List.nil_append, startLine, gapBefore]
-    rfl
+    rw [← Nat.add_assoc, mb_item e h.1 n _ (F + r.length) _ os ks _ (trailOf_kT _ _ _ _ _ _ _ _ hr) (by omega)]
+    rw [mb_kids r h.2.2 n false _ _ _ _ F os _ rest hr (by omega)]
+    simp only [List.append_assoc, List.cons_append, List.nil_append]
 end
 
 
-/-! ## the reading satisfies `relaid` -/
+/-! ## the reading satisfies `relaidL` -/
 
 theorem optsOk_nil : optsOk [] [] := ⟨rfl, by simp, by simp⟩
 
 theorem fieldOk_rd (f : FieldD) (h : SimpleField f ∨ SimpleValue f ∨ MapField f) (s : Nat) :
-    fieldOk f { f with loc := lineLoc s s, index := 0 } := by
+    fieldOkL f (({ f with loc := lineLoc s s, index := 0 } : FieldD).withLead f.loc.leading) := by
   have ho : f.opts = [] := by rcases h with h | h | h <;> exact h.2.2.1
   refine ⟨rfl, rfl, rfl, rfl, rfl, rfl, ⟨rfl, rfl, rfl⟩, rfl, ?_, ?_⟩
-  · rw [ho]; simp
+  · simp only [FieldD.withLead]; rw [ho]; simp
   · intro p _ _ o' ho'
-    simp only [ho] at ho'
+    simp only [FieldD.withLead, ho] at ho'
     simp at ho'
+
+theorem fieldOkL_of_fieldOk {f f' : FieldD} (h : fieldOk f f') : fieldOkL f (f'.withLead f.loc.leading) := by
+  obtain ⟨h1, h2, h3, h4, h5, h6, h7, h8, h9, h10⟩ := h
+  exact ⟨h1, h2, h3, h4, h5, h6, ⟨h7.1, h7.2.2, rfl⟩, h8, h9, h10⟩
 
 theorem optOk_shO {o o' : SOpt} (k : Nat) (h : optOk o o') : optOk o (shO k o') := by
   obtain ⟨h1, h2, h3⟩ := h
@@ -1631,6 +1744,12 @@ theorem optsOk_shO {os os' : List SOpt} (k : Nat) (h : optsOk os os') (hpos : 
     rw [locLess_shO k p'.2 q'.2 (hpos _ (List.of_mem_zip hp').2) (hpos _ (List.of_mem_zip hq').2)]
     exact h3 p' hp' q' hq'
 
+theorem kidStart_ge (c : String) (gb : Bool) (L : Nat) (g : Bool) : L ≤ kidStart c gb L g := by
+  unfold kidStart startLine
+  split
+  · split <;> omega
+  · omega
+
 mutual
 theorem rdItem_mono : ∀ (e : Item) (s : Nat), Plain e → s < (rdItem e s).2 ∧
     (rdItem e s).1.loc.startLine = s ∧ (rdItem e s).1.loc.endLine + 1 = (rdItem e s).2
@@ -1669,22 +1788,28 @@ theorem rdKids_mono : ∀ (es : List Item) (first : Bool) (le0 lt L : Nat) (g : 
   | [], _, _, _, _, _, _ => by simp [rdKids]
   | e :: r, first, le0, lt, L, g, h => by
     simp only [PlainList] at h
-    simp only [rdKids]
-    have hst : L ≤ (if (g || gapCond first le0 e.loc.startLine e.typeOrder lt) = true then L + 1 else L) := by split <;> omega
-    generalize (if (g || gapCond first le0 e.loc.startLine e.typeOrder lt) = true then L + 1 else L) = st at hst ⊢
+    rw [rdKids_cons]
+    have hst : L ≤ kidS e first le0 lt L g := kidStart_ge _ _ _ _
+    generalize kidS e first le0 lt L g = st at hst ⊢
     have h1 := (rdItem_mono e st h.1).1
-    have h2 := rdKids_mono r false e.loc.endLine e.typeOrder (rdItem e st).2 e.gapEnder h.2
+    have h2 := rdKids_mono r false e.loc.endLine e.typeOrder (rdItem e st).2 e.gapEnder h.2.2
+    simp only []
     omega
 end
 
+theorem withLead_lines (c : String) (e : Item) :
+    (e.withLead c).loc.startLine = e.loc.startLine ∧ (e.withLead c).loc.endLine = e.loc.endLine := by
+  rw [Item.withLead_loc]
+  exact ⟨rfl, rfl⟩
+
 mutual
-theorem relaid_rdItem : ∀ (e : Item) (s : Nat), Plain e → relaid e (rdItem e s).1
+theorem relaid_rdItem : ∀ (e : Item) (s : Nat), Plain e → relaidL e ((rdItem e s).1.withLead e.loc.leading)
   | .field f, s, h => by
     simp only [Plain] at h
     simp only [rdItem]
     split
     · rename_i hp
-      simp only [relaid]
+      simp only [relaidL, Item.withLead, Item.loc]
       have hpo : f.popts = [] := by simpa using hp
       refine fieldOk_rd f ?_ s
       rcases h with h | h | h | h
@@ -1693,14 +1818,14 @@ theorem relaid_rdItem : ∀ (e : Item) (s : Nat), Plain e → relaid e (rdItem e
       · exact Or.inr (Or.inr h)
       · exact absurd hpo h.nonempty
     · rename_i hp
-      simp only [relaid]
+      simp only [relaidL, Item.withLead, Item.loc]
       have ho : OptField f := by
         rcases h with h | h | h | h
         · exact absurd (by simp [Leaf.popts (Or.inl h)]) hp
         · exact absurd (by simp [Leaf.popts (Or.inr (Or.inl h))]) hp
         · exact absurd (by simp [Leaf.popts (Or.inr (Or.inr h))]) hp
         · exact h
-      exact fieldOk_shF s ho.ok
+      exact fieldOkL_of_fieldOk (fieldOk_shF s ho.ok)
   | .rpc l i name inT outT os, s, h => by
     simp only [Plain] at h
     obtain ⟨_, ho⟩ := h
@@ -1709,9 +1834,9 @@ theorem relaid_rdItem : ∀ (e : Item) (s : Nat), Plain e → relaid e (rdItem e
     · rename_i he
       have : os = [] := by simpa using he
       subst this
-      simp only [relaid]
+      simp only [relaidL, Item.withLead, Item.loc]
       exact ⟨trivial, trivial, trivial, ⟨rfl, rfl, rfl⟩, optsOk_nil⟩
-    · simp only [relaid]
+    · simp only [relaidL, Item.withLead, Item.loc]
       exact ⟨trivial, trivial, trivial, ⟨rfl, rfl, rfl⟩, optsOk_shO s ho.ok ho.pos⟩
   | .block kw t l i name os kids, s, h => by
     simp only [Plain] at h
@@ -1721,30 +1846,38 @@ theorem relaid_rdItem : ∀ (e : Item) (s : Nat), Plain e → relaid e (rdItem e
     · rename_i he
       simp only [Bool.and_eq_true, List.isEmpty_iff] at he
       obtain ⟨rfl, rfl⟩ := he
-      simp only [relaid, relaidKids]
+      simp only [relaidL, relaidKidsL, Item.withLead, Item.loc]
       exact ⟨trivial, trivial, trivial, ⟨rfl, rfl, rfl⟩, optsOk_nil, trivial⟩
-    · simp only [relaid]
+    · simp only [relaidL, Item.withLead, Item.loc]
       exact ⟨trivial, trivial, trivial, ⟨rfl, rfl, rfl⟩, optsOk_shO s ho.ok ho.pos,
         relaid_rdKids kids true 0 0 (s + 1 + optSpan os) (!os.isEmpty) 0 0 false hk (by omega) (by intro h; cases h)⟩
 theorem relaid_rdKids : ∀ (es : List Item) (first : Bool) (le0 lt L : Nat) (g : Bool) (ps le : Nat) (pg : Bool),
     PlainList es → ps < L → (first = false → L = le + 1 ∧ g = pg ∧ 0 < le) →
-    relaidKids first pg ps le le0 lt es (rdKids es first le0 lt L g).1
-  | [], _, _, _, _, _, _, _, _, _, _, _ => by simp [rdKids, relaidKids]
+    relaidKidsL first pg ps le le0 lt es (rdKids es first le0 lt L g).1
+  | [], _, _, _, _, _, _, _, _, _, _, _ => by simp [rdKids, relaidKidsL]
   | e :: r, first, le0, lt, L, g, ps, le, pg, h, hps, hinv => by
     simp only [PlainList] at h
-    simp only [rdKids, relaidKids]
-    obtain ⟨hm1, hm2, hm3⟩ := rdItem_mono e (if (g || gapCond first le0 e.loc.startLine e.typeOrder lt) = true then L + 1 else L) h.1
-    refine ⟨relaid_rdItem e _ h.1, ?_, ?_, ?_, ?_⟩
-    · rw [hm2]; split <;> omega
+    rw [rdKids_cons]
+    simp only [relaidKidsL]
+    obtain ⟨hm1, hm2, hm3⟩ := rdItem_mono e (kidS e first le0 lt L g) h.1
+    obtain ⟨hw1, hw2⟩ := withLead_lines e.loc.leading (rdItem e (kidS e first le0 lt L g)).1
+    have hge : L ≤ kidS e first le0 lt L g := kidStart_ge _ _ _ _
+    rw [hw1, hw2, hm2]
+    refine ⟨relaid_rdItem e _ h.1, by omega, ?_, ?_, ?_⟩
     · -- the reading asks for a gap only where the printer wrote one
       intro hgr
-      rw [hm2] at hgr
+      by_cases hlead' : e.loc.leading ≠ ""
+      · exact Or.inr (Or.inr hlead')
+      have hlead : e.loc.leading = "" := Classical.not_not.mp hlead'
+      have hks : kidS e first le0 lt L g = (if (g || gapCond first le0 e.loc.startLine e.typeOrder lt) = true then L + 1 else L) := by
+        simp [kidS, kidStart, hlead, startLine, gapBefore]
+      rw [hks] at hgr
       cases first with
       | true => simp [gapCond] at hgr
       | false =>
         obtain ⟨hL, hg, _⟩ := hinv rfl
         by_cases hgo : gapCond false le0 e.loc.startLine e.typeOrder lt = true
-        · exact Or.inr hgo
+        · exact Or.inr (Or.inl hgo)
         · left
           have hgo' : gapCond false le0 e.loc.startLine e.typeOrder lt = false := by simpa using hgo
           have hne : (e.typeOrder != lt) = false := by
@@ -1759,23 +1892,25 @@ theorem relaid_rdKids : ∀ (es : List Item) (first : Bool) (le0 lt L : Nat) (g 
             omega
     · -- where the printer wrote a gap the reading asks for one
       intro hgo
+      by_cases hlead' : e.loc.leading ≠ ""
+      · exact Or.inr (Or.inr hlead')
+      have hlead : e.loc.leading = "" := Classical.not_not.mp hlead'
+      have hks : kidS e first le0 lt L g = (if (g || gapCond first le0 e.loc.startLine e.typeOrder lt) = true then L + 1 else L) := by
+        simp [kidS, kidStart, hlead, startLine, gapBefore]
       cases first with
       | true => simp [gapCond] at hgo
       | false =>
         obtain ⟨hL, hg, hle⟩ := hinv rfl
-        right
-        rw [hm2]
+        right; left
+        rw [hks]
         simp only [hgo, Bool.or_true, if_true]
         simp only [gapCond, Bool.not_false, Bool.true_and, Bool.or_eq_true, Bool.and_eq_true, decide_eq_true_eq]
         left
         omega
-    · apply relaid_rdKids r false e.loc.endLine e.typeOrder _ e.gapEnder _ _ e.gapEnder h.2
-      · rw [hm2]; exact hm1
+    · apply relaid_rdKids r false e.loc.endLine e.typeOrder _ e.gapEnder _ _ e.gapEnder h.2.2
+      · exact hm1
       · intro _
-        refine ⟨by omega, rfl, ?_⟩
-        have : L ≤ (rdItem e (if (g || gapCond first le0 e.loc.startLine e.typeOrder lt) = true then L + 1 else L)).1.loc.startLine := by
-          rw [hm2]; split <;> omega
-        omega
+        exact ⟨by omega, rfl, by omega⟩
 end
 
 end J5V.Print.Reparse
